@@ -146,6 +146,22 @@ impl SecondaryStorage {
                     crate::verif::point_sync("persist.boot.vacuum.done", &entry.path().to_string_lossy());
                 }
             }
+
+            // vacuum unused DVs (`dv/<table>_<rowset>_<dv>.dv`): files of deleted DVs and of
+            // transactions that never committed would otherwise block a later DV that gets the same
+            // ids (`create_new` fails) once the id generators have been re-derived from the manifest
+            let mut dir = fs::read_dir(options.path.join("dv")).await?;
+            while let Some(entry) = dir.next_entry().await? {
+                let name = entry.file_name();
+                let ids = (name.to_str().and_then(|n| n.strip_suffix(".dv")))
+                    .map(|n| n.split('_').map(|x| x.parse::<u64>()).collect::<Vec<_>>());
+                if let Some(ids) = ids
+                    && let [Ok(table_id), Ok(rowset_id), Ok(dv_id)] = ids[..]
+                    && !dvs_to_open.contains_key(&(table_id as u32, rowset_id as u32, dv_id))
+                {
+                    fs::remove_file(entry.path()).await?;
+                }
+            }
         }
 
         // TODO: parallel open
